@@ -47,6 +47,11 @@ ASSUMPTIONS = [
     "option values: int, str, tuple, list, dict with str keys, set of str (plus immutabledict / numpy scalars and arrays in the hash-only part)",
     "class identity is structural: the harness builds one class object per distinct class description",
     "use_per_run_defaults is off (with it strax does not cache plugins at all)",
+    "A-untracked: untracked options do not influence results — provenance (model `prov`, harness rows) records tracked options only; "
+    "this is what reconciles 'returns what a brand-new context would compute' with 'an untracked option changes no key'",
+    "A-O4: when a brand-new context cannot compute the data because a required option has neither value nor default "
+    "(strax.InvalidConfiguration 'Missing option'), rows loaded from a shared directory are not counted as stale; any other failure of the fresh context is",
+    "Python `==` of defaults in register's conflict check is modelled structurally (True != 1, 1.0 != 1); the harness never shares such defaults between classes",
 ]
 
 RUN = "0"
@@ -66,11 +71,18 @@ def _tmpdir():
 # ----------------------------------------------------------------------------- value language
 # JSON-able description of a Python value: int | str | ["t", [..]] tuple | ["l", [..]] list |
 # ["d", [[k, v], ..]] dict (insertion order) | ["D", ..] immutabledict | ["S", [str..]] set (listed
-# order irrelevant) | ["F", ..] frozenset | ["ni", int] numpy int64 | ["na", [ints]] numpy array
+# order irrelevant) | ["F", ..] frozenset | ["ni", int] numpy int64 | ["na", [ints]] numpy array |
+# ["b", 0/1] bool | ["N", 0] None | ["fl", "<repr>"] float (plain decimal repr)
 def build(v):
     if isinstance(v, (int, str)):
         return v
     t, x = v
+    if t == "b":
+        return bool(x)
+    if t == "N":
+        return None
+    if t == "fl":
+        return float(x)
     if t == "t":
         return tuple(build(a) for a in x)
     if t == "l":
@@ -97,8 +109,19 @@ def tok_s(s):
 
 def enc_py(o):
     """driver tokens of a real Python value (sets in their *iteration* order)"""
-    if isinstance(o, (bool, np.bool_)):
-        raise TypeError("bool not in the model")
+    if isinstance(o, bool):
+        return f"b {int(o)}"
+    if o is None:
+        return "n"
+    if isinstance(o, float):
+        r = repr(o)
+        if "e" in r or "n" in r or "." not in r:       # exponent form, inf, nan: outside the model
+            raise TypeError("float outside the modelled range")
+        neg = r.startswith("-")
+        ip, frac = r.lstrip("-").split(".")
+        return " ".join([f"f {int(neg)} {int(ip)} {len(frac)}"] + list(frac))
+    if isinstance(o, np.bool_):
+        raise TypeError("numpy bool not in the model")
     if isinstance(o, (int, np.integer)):
         return f"i {int(o)}"
     if isinstance(o, str):
@@ -148,6 +171,7 @@ def sha_b32(text, length=10):
 
 # ----------------------------------------------------------------------------- harness plugin classes
 PROV_DTYPE = strax.time_fields + [(("Index into the provenance table", "prov"), np.int64)]
+PROV_DTYPE_NP = strax.to_numpy_dtype(PROV_DTYPE)
 PROV_TABLE: list = []      # index -> lineage-shaped dict of what was really used
 PROV_INDEX: dict = {}      # canon_json -> index
 
@@ -182,17 +206,25 @@ def _provenance(self, inputs):
 
 
 def _row(self, inputs):
-    r = np.zeros(1, dtype=self.dtype)
-    r["time"] = 0
-    r["endtime"] = 1
-    r["prov"] = _prov_id(_provenance(self, inputs))
-    return r
+    """one row per output, all carrying the same provenance (the plugin's)"""
+    pid = _prov_id(_provenance(self, inputs))
+    out = {}
+    for o in type(self).provides:
+        r = np.zeros(1, dtype=PROV_DTYPE_NP)
+        r["time"] = 0
+        r["endtime"] = 1
+        r["prov"] = pid
+        out[o] = r
+    return out if len(out) > 1 else out[type(self).provides[0]]
 
 
 def _compute_for(deps):
     if not deps:
         def compute(self, chunk_i):
-            return self.chunk(start=0, end=1, data=_row(self, {}))
+            rows = _row(self, {})
+            if isinstance(rows, dict):
+                return {o: self.chunk(start=0, end=1, data=r, data_type=o) for o, r in rows.items()}
+            return self.chunk(start=0, end=1, data=rows)
         return compute
     names = list(dict.fromkeys(deps))   # duplicate dependencies are refused by Plugin.__init__, not here
     src = f"def compute(self, {', '.join(names)}):\n    return _row(self, dict(" + ", ".join(f"{d}={d}" for d in names) + "))\n"
@@ -205,15 +237,19 @@ _CLASS_MEMO: dict = {}
 
 
 def make_class(spec):
-    """spec: dict(name, version, provides, deps, opts=[[name, default|None, track, parent|None]], parent=spec|None,
-    compressor, timeout).  One class object per distinct spec."""
+    """spec: dict(name, version, provides, also=[other outputs], deps, opts=[[name, default|None, track, parent|None]],
+    parent=spec|None, compressor, timeout).  The class provides also + [provides].  One class object per distinct spec."""
     key = json.dumps(spec, sort_keys=True)
     if key in _CLASS_MEMO:
         return _CLASS_MEMO[key]
     base = make_class(spec["parent"]) if spec.get("parent") else strax.Plugin
     deps = tuple(spec["deps"])
-    ns = dict(__version__=spec["version"], provides=(spec["provides"],), depends_on=deps, dtype=PROV_DTYPE,
-              data_kind=spec["provides"], child_plugin=bool(spec.get("parent")), compressor=spec.get("compressor", "blosc"),
+    outs = tuple(spec.get("also", [])) + (spec["provides"],)
+    multi = len(outs) > 1
+    ns = dict(__version__=spec["version"], provides=outs, depends_on=deps,
+              dtype={o: PROV_DTYPE for o in outs} if multi else PROV_DTYPE,
+              data_kind=immutabledict({o: o for o in outs}) if multi else spec["provides"],
+              child_plugin=bool(spec.get("parent")), compressor=spec.get("compressor", "blosc"),
               input_timeout=spec.get("timeout", 80), compute=_compute_for(deps), rechunk_on_save=False)
     if not deps:
         ns["is_ready"] = lambda self, chunk_i: chunk_i == 0
@@ -236,7 +272,8 @@ def make_class(spec):
 def enc_class(cls):
     """driver tokens, read off the real class object"""
     deps = strax.to_str_tuple(cls.depends_on)
-    toks = [tok_s(cls.__name__), tok_s(cls.__version__), tok_s(strax.to_str_tuple(cls.provides)[-1]),
+    outs = strax.to_str_tuple(cls.provides)
+    toks = [tok_s(cls.__name__), tok_s(cls.__version__), tok_s(outs[-1]),
             str(len(deps)), *map(tok_s, deps), str(int(bool(cls.child_plugin)))]
     bases = [(b.__name__, b.version()) for b in cls.__bases__] if cls.child_plugin else []
     toks += [str(len(bases))] + [tok_s(x) for b in bases for x in b]
@@ -247,6 +284,7 @@ def enc_class(cls):
             toks.append("0")
         else:
             toks += ["1", enc_py(o.default)]
+    toks += [str(len(outs) - 1), *map(tok_s, outs[:-1])]
     return " ".join(toks)
 
 
@@ -304,6 +342,9 @@ def fresh_get(ctx, d):
     try:
         a = new.get_array(RUN, d, progress_bar=False)
         return "ok " + canon_json(PROV_TABLE[int(a["prov"][0])])
+    except strax.InvalidConfiguration as e:
+        # a required option has neither a value nor a default (assumption A-O4)
+        return "err InvalidConfiguration" if "Missing option" in str(e) else "err Other"
     except Exception as e:  # noqa: BLE001
         return "err " + sl.err_name(e)
 
@@ -402,14 +443,26 @@ def oracle_history(case, out):
         return f"step {i}: directory of {t} named {h} holds metadata lineage hashing to something else"
     for i, new in side["fuzzy_wrote"]:
         return f"step {i}: a context with fuzzy matching switched on wrote {new}"
+    # lineage() of one context depends on its registry and config only: queries and fuzzy settings in between change nothing
+    last = {}
+    for i, op in enumerate(case["ops"]):
+        if op[0] in ("SC", "RG", "NC"):
+            last = {k: v for k, v in last.items() if k[0] != op[1]}
+        elif op[0] == "LN" and steps[i].startswith("ok"):
+            k = (op[1], op[2])
+            if k in last and last[k][1] != steps[i]:
+                return (f"step {i}: lineage({op[2]}) = {steps[i]}, but at step {last[k][0]} the same context with the same registry "
+                        f"and config answered {last[k][1]}")
+            last[k] = (i, steps[i])
     for i, fresh in side["fresh"].items():
         got = steps[int(i)]
         if fresh.startswith("ok") and got != fresh:
             return (f"step {i} ({case['ops'][int(i)]}): get_array returned {got}, a brand-new context with the "
                     f"same settings on an empty directory computes {fresh}")
         if fresh.startswith("err") and got.startswith("ok"):
-            # data exists although a fresh context cannot compute it: only legitimate for missing required options
-            if fresh != "err Other":
+            # rows exist although a fresh context cannot compute them: tolerated only when the fresh context lacks a
+            # required option (strax.InvalidConfiguration "Missing option …", assumption A-O4), nothing else
+            if fresh != "err InvalidConfiguration":
                 return f"step {i}: get_array returned {got}, a brand-new context fails with {fresh}"
     return None
 
@@ -422,29 +475,58 @@ SHAPES = {
     "fork": dict(aa=[], bb=[], cc=["aa", "bb"], dd=["cc"]),
     "short": dict(aa=[], bb=["aa"]),
     "vee": dict(aa=[], bb=["aa"], cc=["aa"]),
+    # multi-output plugins: the key is the LAST output (`provides[-1]`, the key of the lineage entry)
+    "multi": dict(bb=[], cc=["aa"], dd=["bb", "cc"]),       # plugin bb also provides aa
+    "multi2": dict(aa=[], cc=["aa"], dd=["bb"]),            # plugin cc also provides bb
 }
-VALUES = [0, 1, 2, 3, "x", "yy", ["t", [1, 2]], ["t", [2, 1]], ["l", [1, 2]], ["t", []], ["d", [["k", 1]]],
+SHAPE_ALSO = {"multi": dict(bb=["aa"]), "multi2": dict(cc=["bb"])}
+
+
+def shape_also(shape_name, key):
+    return list(SHAPE_ALSO.get(shape_name, {}).get(key, []))
+
+
+def shape_types(shape_name):
+    out = []
+    for key in SHAPES[shape_name]:
+        out += shape_also(shape_name, key) + [key]
+    return sorted(out)
+
+
+def plugin_key(shape_name, t):
+    for key in SHAPES[shape_name]:
+        if t == key or t in shape_also(shape_name, key):
+            return key
+    return t
+
+
+VALUES = [0, 1, 2, 3, "x", "yy", ["b", 1], ["N", 0], ["fl", "0.5"], ["fl", "2.0"], 2 ** 70, ["t", [1, 2]], ["t", [2, 1]], ["l", [1, 2]], ["t", []], ["d", [["k", 1]]],
           ["d", [["k", 2], ["j", ["t", [1]]]]], ["d", [["j", ["t", [1]]], ["k", 2]]], ["t", [["t", [1, "a"]], 2]]]
 
 
-def descendants_or_self(shape, t):
-    out = {t}
+def descendants_or_self(shape, t, shape_name=None):
+    """all data types whose lineage contains the entry of the plugin that provides t"""
+    def outs(key):
+        return set(shape_also(shape_name, key)) | {key} if shape_name else {key}
+    key = plugin_key(shape_name, t) if shape_name else t
+    out = set(outs(key))
     changed = True
     while changed:
         changed = False
         for x, deps in shape.items():
             if x not in out and any(d in out for d in deps):
-                out.add(x)
+                out |= outs(x)
                 changed = True
     return out
 
 
-def base_spec(t, deps, rng, shared=True):
-    """class of data type t: own tracked option t_t, own untracked t_u, optionally the shared tracked option sh"""
+def base_spec(t, deps, rng, shared=True, also=()):
+    """class of data type t (and `also`): own tracked option t_t, own untracked t_u, optionally the shared tracked option sh"""
     opts = [[f"{t}_t", [rng.choice([0, 1, 2])], 1, None], [f"{t}_u", [rng.choice([0, 1])], 0, None]]
     if shared and rng.random() < 0.5:
         opts.append(["sh", [7], 1, None])
-    return dict(name=f"P{t}", version="0.0.1", provides=t, deps=list(deps), opts=opts, parent=None, compressor="blosc", timeout=80)
+    return dict(name=f"P{t}", version="0.0.1", provides=t, also=list(also), deps=list(deps), opts=opts, parent=None,
+                compressor="blosc", timeout=80)
 
 
 def variant(spec, rng, all_specs, shape):
@@ -452,7 +534,7 @@ def variant(spec, rng, all_specs, shape):
     s = json.loads(json.dumps(spec))
     t = s["provides"]
     kind = rng.choice(["default", "default", "udefault", "version", "name", "deps", "track", "shared", "compressor", "child",
-                       "nodefault", "same"])
+                       "nodefault", "same", "split", "also"])
     if kind == "default":
         s["opts"][0][1] = [rng.choice(VALUES)]
     elif kind == "udefault":
@@ -479,10 +561,23 @@ def variant(spec, rng, all_specs, shape):
             p = rng.choice(parents)
             tracked = [o for o in p["opts"] if o[3] is None]
             po = rng.choice(tracked)
-            s = dict(name=f"C{t}", version="0.0.3", provides=t, deps=s["deps"], parent=p, compressor="blosc", timeout=80,
+            s = dict(name=f"C{t}", version="0.0.3", provides=t, also=s.get("also", []), deps=s["deps"], parent=p, compressor="blosc", timeout=80,
                      opts=[[f"{t}_c", [rng.choice([4, 5, ["t", [4]]])], po[2], po[0]], [f"{t}_t", [rng.choice([0, 1])], 1, None]])
     elif kind == "nodefault":
         s["opts"].append([f"{t}_n", None, rng.choice([0, 1]), None])
+    elif kind == "split":
+        # provide only one of the outputs: the old class loses all of them
+        if s.get("also"):
+            keep = rng.choice(s["also"] + [t])
+            s["provides"], s["also"], s["name"] = keep, [], s["name"] + "s"
+        else:
+            s["also"] = []
+    elif kind == "also":
+        # take over another data type as an additional output
+        others = [x for x in TYPES if x != t and x not in s.get("also", []) and x not in s["deps"]]
+        if others:
+            s["also"] = s.get("also", []) + [rng.choice(others)]
+            s["name"] = s["name"] + "m"
     return s
 
 
@@ -499,14 +594,14 @@ def option_names(specs):
 def gen_history(rng, max_len=12):
     shape_name = rng.choice(list(SHAPES))
     shape = SHAPES[shape_name]
-    specs = {t: base_spec(t, deps, rng) for t, deps in shape.items()}
-    types = list(shape)
+    specs = {t: base_spec(t, deps, rng, also=shape_also(shape_name, t)) for t, deps in shape.items()}
+    types = shape_types(shape_name)
     ops = []
     # both contexts start from the same graph most of the time
     for who in (0, 1):
         if who == 1 and rng.random() < 0.15:
             continue
-        for t in types:
+        for t in shape:
             ops.append(["RG", who, specs[t]])
     current = {0: dict(specs), 1: dict(specs)}
     n = rng.randint(3, max_len)
@@ -515,26 +610,26 @@ def gen_history(rng, max_len=12):
         r = rng.random()
         cur = current[who]
         if r < 0.22:
-            t = rng.choice(types)
+            t = plugin_key(shape_name, rng.choice(types))
             s = variant(cur.get(t, specs[t]), rng, list(cur.values()), shape)
             try:
                 make_class(s)
             except RuntimeError:      # e.g. an option specified twice along the inheritance chain: not a class at all
                 s = cur.get(t, specs[t])
-            cur[t] = s
+            cur[s["provides"]] = s
             ops.append(["RG", who, s])
         elif r < 0.42:
             names = option_names(cur.values()) + ["free_opt"]
             # sometimes an option that is named like a data type
             k = rng.choice(names) if rng.random() < 0.93 else rng.choice(types)
             ops.append(["SC", who, [[k, rng.choice(VALUES)]]])
-        elif r < 0.47:
-            ops.append(["NC", who])
         elif r < 0.49:
+            ops.append(["NC", who])
+        elif r < 0.515:
             ff = [t for t in types if rng.random() < 0.3]
             ffo = [o for o in option_names(cur.values()) if rng.random() < 0.2]
             ops.append(["SF", who, ff, ffo])
-        elif r < 0.51:
+        elif r < 0.53:
             ops.append(["SF", who, [], []])
         elif r < 0.62:
             ops.append(["MK", who, rng.choice(types)])
@@ -612,6 +707,32 @@ def d4_family():
     S1 = dict(name="S1", version="1", provides="aa", deps=[], parent=None, compressor="blosc", timeout=80, opts=[["sh", [7], 1, None]])
     S2 = dict(name="S2", version="1", provides="bb", deps=["aa"], parent=None, compressor="blosc", timeout=80, opts=[["sh", [8], 1, None]])
     out.append(dict(ops=[["RG", 0, S1], ["RG", 0, S2], ["LN", 0, "bb"], ["GT", 0, "bb"], ["LS"]]))
+    # multi-output plugins: one lineage entry (keyed by the last output) for all outputs; register deregisters overlapping classes
+    def M(default, outs=("aa", "bb"), name="M", version="1", deps=()):
+        return dict(name=name, version=version, provides=outs[-1], also=list(outs[:-1]), deps=list(deps), parent=None,
+                    compressor="blosc", timeout=80, opts=[["mx", [default], 1, None], ["mu", [0], 0, None]])
+    Qa = dict(name="Qa", version="1", provides="qq", also=[], deps=["aa"], parent=None, compressor="blosc", timeout=80, opts=[["qy", [0], 1, None]])
+    Qb = dict(Qa, name="Qb", provides="rr", deps=["bb", "aa"])
+    for second in (M(2), M(1, version="2"), M(1, name="M2"), M(1), M(1, outs=("bb", "aa"))):
+        for pre in (["MK", 0, "qq"], ["GT", 0, "aa"], ["LN", 0, "bb"]):
+            out.append(dict(ops=[["RG", 0, M(1)], ["RG", 0, Qa], ["RG", 0, Qb], pre, ["RG", 0, second], ["GT", 0, "qq"], ["GT", 0, "rr"],
+                                 ["LN", 0, "aa"], ["LN", 0, "bb"], ["ST", 0, "aa"], ["LS"]]))
+    # a class providing (bb, cc) takes bb away from M(aa, bb): aa is deregistered too
+    N2 = M(1, outs=("bb", "cc"), name="N2")
+    out.append(dict(ops=[["RG", 0, M(1)], ["RG", 0, Qa], ["MK", 0, "qq"], ["RG", 0, N2], ["LN", 0, "bb"], ["LN", 0, "cc"], ["LN", 0, "aa"],
+                         ["GT", 0, "qq"], ["GT", 0, "bb"], ["ST", 0, "aa"], ["LS"]]))
+    # a single-output class takes aa: bb goes as well; then M comes back
+    A1 = dict(name="A1", version="1", provides="aa", also=[], deps=[], parent=None, compressor="blosc", timeout=80, opts=[["mx", [1], 1, None]])
+    out.append(dict(ops=[["RG", 0, M(1)], ["RG", 0, Qb], ["GT", 0, "rr"], ["RG", 0, A1], ["LN", 0, "aa"], ["LN", 0, "bb"], ["GT", 0, "rr"],
+                         ["GT", 0, "aa"], ["RG", 0, M(1)], ["GT", 0, "rr"], ["GT", 0, "aa"], ["LS"]]))
+    # two contexts: one with M(aa,bb), the other with separate classes for aa and bb
+    B1 = dict(A1, name="B1", provides="bb", opts=[["by", [1], 1, None]])
+    out.append(dict(ops=[["RG", 0, M(1)], ["RG", 0, Qb], ["RG", 1, A1], ["RG", 1, B1], ["RG", 1, Qb], ["MK", 0, "rr"], ["GT", 1, "rr"], ["GT", 1, "aa"],
+                         ["GT", 0, "aa"], ["ST", 1, "bb"], ["SC", 0, [["mx", 5]]], ["GT", 0, "rr"], ["GT", 0, "bb"], ["LS"]]))
+    # tracked / untracked option of a multi-output plugin
+    for k, v in (("mx", 3), ("mu", 3)):
+        out.append(dict(ops=[["RG", 0, M(1)], ["RG", 0, Qa], ["MK", 0, "qq"], ["LN", 0, "aa"], ["SC", 0, [[k, v]]], ["LN", 0, "aa"], ["LN", 0, "bb"],
+                             ["ST", 0, "qq"], ["GT", 0, "qq"], ["LS"]]))
     return out
 
 
@@ -621,38 +742,39 @@ def keychange_cases(rng, n):
     for _ in range(n):
         shape_name = rng.choice(list(SHAPES))
         shape = SHAPES[shape_name]
-        specs = {t: base_spec(t, deps, rng) for t, deps in shape.items()}
-        types = list(shape)
-        ops = [["RG", 0, specs[t]] for t in types]
+        specs = {t: base_spec(t, deps, rng, also=shape_also(shape_name, t)) for t, deps in shape.items()}
+        keys = list(shape)
+        types = shape_types(shape_name)
+        ops = [["RG", 0, specs[t]] for t in keys]
         preset = {}
         if rng.random() < 0.5:
-            t = rng.choice(types)
+            t = rng.choice(keys)
             preset[f"{t}_t"] = rng.choice([0, 1, 2])
             ops.append(["SC", 0, [[k, v] for k, v in preset.items()]])
         ops += [["LN", 0, t] for t in types]
-        t = rng.choice(types)
+        t = rng.choice(keys)
         kind = rng.choice(["tracked", "untracked", "version", "class", "default", "udefault", "shared", "free", "compressor"])
         expect = set()
         if kind == "tracked":
             old = preset.get(f"{t}_t", specs[t]["opts"][0][1][0])
             new = rng.choice([v for v in VALUES if canon_json(build(v)) != canon_json(build(old))])
             ops.append(["SC", 0, [[f"{t}_t", new]]])
-            expect = descendants_or_self(shape, t)
+            expect = descendants_or_self(shape, t, shape_name)
         elif kind == "untracked":
             ops.append(["SC", 0, [[f"{t}_u", rng.choice(VALUES[4:])]]])
         elif kind == "free":
             ops.append(["SC", 0, [["free_opt", rng.choice(VALUES)]]])
         elif kind == "shared":
-            takers = [x for x in types if any(o[0] == "sh" for o in specs[x]["opts"])]
+            takers = [x for x in keys if any(o[0] == "sh" for o in specs[x]["opts"])]
             ops.append(["SC", 0, [["sh", rng.choice([8, "z"])]]])
             for x in takers:
-                expect |= descendants_or_self(shape, x)
+                expect |= descendants_or_self(shape, x, shape_name)
         elif kind == "version":
             ops.append(["RG", 0, dict(specs[t], version="9.9")])
-            expect = descendants_or_self(shape, t)
+            expect = descendants_or_self(shape, t, shape_name)
         elif kind == "class":
             ops.append(["RG", 0, dict(specs[t], name="Other")])
-            expect = descendants_or_self(shape, t)
+            expect = descendants_or_self(shape, t, shape_name)
         elif kind == "compressor":
             ops.append(["RG", 0, dict(specs[t], compressor="zstd", timeout=3)])
         elif kind == "default":
@@ -661,7 +783,7 @@ def keychange_cases(rng, n):
             s["opts"][0][1] = [rng.choice([v for v in VALUES if canon_json(build(v)) != canon_json(build(old))])]
             ops.append(["RG", 0, s])
             if f"{t}_t" not in preset:
-                expect = descendants_or_self(shape, t)
+                expect = descendants_or_self(shape, t, shape_name)
         elif kind == "udefault":
             s = json.loads(json.dumps(specs[t]))
             s["opts"][1][1] = [rng.choice(VALUES[4:])]
@@ -718,8 +840,9 @@ def fuzzy_cases(thorough):
                     return what in ("ax", "bx") and what in ffo
                 exp_bb = all(covered(p) for p in diff)
                 exp_aa = all(covered(p) for p in diff if p.startswith("a."))
-                ops = [["RG", 0, A()], ["RG", 0, B()], ["MK", 0, "bb"], ["RG", 1, a2], ["RG", 1, b2], ["SF", 1, ff, ffo],
-                       ["ST", 1, "bb"], ["ST", 1, "aa"], ["GT", 1, "bb"], ["GT", 1, "aa"], ["LS"], ["SF", 1, [], []], ["ST", 1, "bb"], ["LS"]]
+                ops = [["RG", 0, A()], ["RG", 0, B()], ["MK", 0, "bb"], ["RG", 1, a2], ["RG", 1, b2], ["LN", 1, "bb"], ["SF", 1, ff, ffo],
+                       ["ST", 1, "bb"], ["ST", 1, "aa"], ["GT", 1, "bb"], ["GT", 1, "aa"], ["LS"], ["SF", 1, [], []], ["ST", 1, "bb"],
+                       ["LN", 1, "bb"], ["GT", 1, "bb"], ["LS"]]
                 out.append(dict(diff=list(diff), ff=ff, ffo=ffo, expect=[exp_bb, exp_aa], exact=not diff, ops=ops))
     return out
 
@@ -730,7 +853,7 @@ def oracle_fuzzy(case, out):
         return msg
     steps = out.split(" ;; ")
     side = SIDE[case_key(case)]
-    got = [steps[6], steps[7]]
+    got = [steps[7], steps[8]]
     want = ["ok " + str(case["expect"][0]), "ok " + str(case["expect"][1])]
     fuzzy_on = bool(case["ff"] or case["ffo"])
     if not fuzzy_on:
@@ -740,13 +863,111 @@ def oracle_fuzzy(case, out):
                 f"is_stored(bb), is_stored(aa) = {got}, expected {want} (accepted exactly when every difference is named)")
     if fuzzy_on:
         # rows returned under fuzzy matching: the stored ones when accepted
-        stored_bb = steps[10]
-        if case["expect"][0] and side["fuzzy_data"].get("8") is None:
+        if case["expect"][0] and side["fuzzy_data"].get("9") is None:
             return "accepted data was not returned"
     # nothing written while fuzzy was on: the listing after equals the listing of the two directories made by context 0
-    if fuzzy_on and steps[10].count("=") != 2:
-        return f"directory listing changed under fuzzy matching: {steps[10]}"
+    if fuzzy_on and steps[11].count("=") != 2:
+        return f"directory listing changed under fuzzy matching: {steps[11]}"
+    # fuzzy matching switched off again on the same context: exact matching, as if it had never been on
+    if fuzzy_on and steps[13] != "ok " + str(case["exact"]):
+        return (f"after set_context_config(fuzzy_for=(), fuzzy_for_options=()) is_stored(bb) = {steps[13]}, expected ok {case['exact']} "
+                f"(stored lineage differs in {case['diff']})")
+    if steps[14] != steps[5]:
+        return (f"lineage(bb) of the same context with the same registry and config changed after fuzzy matching was switched on and "
+                f"off again: before {steps[5]}, after {steps[14]}")
     return None
+
+
+# ----------------------------------------------------------------------------- `_matches` on its own
+def enc_lineage(lin):
+    """lin: [[type, cls, version, [[opt, value-spec], ..]], ..]"""
+    toks = [str(len(lin))]
+    for t, c, v, cfg in lin:
+        toks += [tok_s(t), tok_s(c), tok_s(v), str(len(cfg))] + [tok_s(k) + " " + enc(x) for k, x in cfg]
+    return " ".join(toks)
+
+
+def py_lineage(lin):
+    return {t: (c, v, {k: build(x) for k, x in cfg}) for t, c, v, cfg in lin}
+
+
+_SF = []
+
+
+def impl_match(case):
+    if not _SF:
+        _SF.append(strax.DataDirectory(_tmpdir()))
+    stored = json.loads(json.dumps(py_lineage(case["stored"])))       # what metadata.json gives back
+    want = py_lineage(case["want"])
+
+    def f():
+        return str(bool(_SF[0]._matches(stored, want, tuple(case["ff"]), tuple(case["ffo"]))))
+    return sl.guarded(f)
+
+
+def op_match(case):
+    return " ".join(["c02.match text", enc_lineage(case["stored"]), enc_lineage(case["want"]),
+                     str(len(case["ff"])), *map(tok_s, case["ff"]), str(len(case["ffo"])), *map(tok_s, case["ffo"])])
+
+
+def oracle_match(case, out):
+    a = {t: (c, v, dict(cfg)) for t, c, v, cfg in case["stored"]}
+    b = {t: (c, v, dict(cfg)) for t, c, v, cfg in case["want"]}
+    ok = True
+    for t in set(a) | set(b):
+        if t in case["ff"]:
+            continue
+        if (t in a) != (t in b):
+            ok = False
+            continue
+        (c1, v1, g1), (c2, v2, g2) = a[t], b[t]
+        if c1 != c2 or v1 != v2:
+            ok = False
+        for o in set(g1) | set(g2):
+            if o in case["ffo"]:
+                continue
+            if (o in g1) != (o in g2) or canon_json(build(g1[o])) != canon_json(build(g2[o])):
+                ok = False
+    if out != "ok " + str(ok):
+        return (f"_matches(stored, wanted, fuzzy_for={case['ff']}, fuzzy_for_options={case['ffo']}) = {out}, but the lineages "
+                f"{'differ only' if ok else 'do not differ only'} in the named parts")
+    return None
+
+
+def match_cases(rng, n):
+    vals = [1, 2, "x", ["t", [1, 2]], ["t", [1, 3]], ["l", [1, 2]], ["d", [["k", ["t", [3]]]]], ["d", [["k", ["t", [4]]]]],
+            ["b", 1], ["N", 0], ["fl", "0.5"], ["t", []], ["d", []]]
+    out = []
+    for _ in range(n):
+        stored = [["aa", "A", "1", [["ax", rng.choice(vals)], ["ay", rng.choice(vals)]]],
+                  ["bb", "B", "1", [["bx", rng.choice(vals)], ["ax", rng.choice(vals)]]]]
+        if rng.random() < 0.3:
+            stored.append(["cc", "C", "2", []])
+        want = json.loads(json.dumps(stored))
+        for _k in range(rng.choice([0, 1, 1, 2, 3])):
+            e = rng.choice(want)
+            what = rng.choice(["opt", "opt", "ver", "cls", "drop", "addopt", "droptype", "order"])
+            if what == "opt" and e[3]:
+                rng.choice(e[3])[1] = rng.choice(vals)
+            elif what == "ver":
+                e[2] = "9"
+            elif what == "cls":
+                e[1] = e[1] + "x"
+            elif what == "drop" and e[3]:
+                e[3].pop(rng.randrange(len(e[3])))
+            elif what == "addopt":
+                e[3].append(["new", rng.choice(vals)])
+            elif what == "droptype" and len(want) > 1:
+                want.remove(e)
+            elif what == "order":
+                rng.shuffle(want)
+                rng.shuffle(e[3])
+        ff = [t for t in ("aa", "bb", "cc") if rng.random() < 0.3]
+        ffo = [o for o in ("ax", "ay", "bx", "new") if rng.random() < 0.3]
+        if not ff and not ffo:
+            ffo = [rng.choice(["ax", "ay", "bx"])]
+        out.append(dict(stored=stored, want=want, ff=ff, ffo=ffo))
+    return out
 
 
 # ----------------------------------------------------------------------------- hashing: model, seeds, insertion orders
@@ -761,6 +982,9 @@ def build(v, rng):
     if isinstance(v, (int, str)):
         return v
     t, x = v
+    if t == "b": return bool(x)
+    if t == "N": return None
+    if t == "fl": return float(x)
     if t == "t": return tuple(build(a, rng) for a in x)
     if t == "l": return [build(a, rng) for a in x]
     if t in ("d", "D"):
@@ -796,7 +1020,9 @@ json.dump(out, sys.stdout)
 def gen_value(rng, depth=0, rich=True):
     r = rng.random()
     if depth >= 3 or r < 0.3:
-        return rng.choice([0, 1, -7, 12345678901, "a", "bc", "", "q\"uote", "back\\slash", "A_b.9"])
+        return rng.choice([0, 1, -7, 12345678901, 2 ** 64, -(2 ** 63), 10 ** 30, "a", "bc", "", "q\"uote", "back\\slash", "A_b.9",
+                           ["b", 1], ["b", 0], ["N", 0], ["fl", "0.5"], ["fl", "-0.0"], ["fl", "1.0"], ["fl", "1234.5678"],
+                           ["fl", "0.0001"], ["fl", "-3.25"], ["fl", "1000000000000000.0"], ["fl", "0.1"], ["fl", "2.675"]])
     if r < 0.45:
         return ["t", [gen_value(rng, depth + 1, rich) for _ in range(rng.randint(0, 3))]]
     if r < 0.55:
@@ -864,10 +1090,10 @@ def run(ctx):
         return None
     ctx.correspond("hash/json-text", vcases, impl_canon, lambda c: "c02.canon " + enc(c["v"]), oracle_canon,
                    nontrivial=lambda c, o: not isinstance(c["v"], (int, str)),
-                   rule="random nested values (int, str incl. quotes/backslashes, tuple, list, dict, immutabledict, set of str, numpy scalar/array): "
+                   rule="random nested values (int incl. > 2^64, str incl. quotes/backslashes, bool, None, float with plain-decimal repr, tuple, list, dict, immutabledict, set of str, numpy scalar/array): "
                         "json.dumps(hashablize(v)) vs the model's canonString; oracle: identical deterministic_hash in subprocesses with "
                         f"PYTHONHASHSEED {seeds} and shuffled dict/set insertion orders",
-                   branch=lambda c, o: "scalar" if isinstance(c["v"], (int, str)) else c["v"][0])
+                   branch=lambda c, o: ("int" if isinstance(c["v"], int) else "str") if isinstance(c["v"], (int, str)) else c["v"][0])
 
     # 2. directed histories (D4 family, option named like a type, second context, malformed graphs)
     ctx.correspond("history/directed", d4_family(), run_history, history_op, oracle_history, nontrivial=nontrivial_history,
@@ -884,17 +1110,172 @@ def run(ctx):
                    in_hyp=lambda c, o: any(v.startswith("ok") for v in SIDE[case_key(c)]["fresh"].values()))
 
     # 4. which keys change
-    kcases = keychange_cases(rng, ctx.pick(150, 1000))
+    kcases = keychange_cases(rng, ctx.pick(130, 1000))
     ctx.correspond("keychange", kcases, run_history, history_op, oracle_keychange, nontrivial=lambda c, o: True,
                    rule="one change (tracked / untracked / shared / unknown option, version, class name, default, compressor) in a random graph: "
                         "the keys of exactly the type(s) taking it and their descendants change", branch=lambda c, o: c["kind"])
 
-    # 5. fuzzy matching, enumerated
+    # 5. auto-inferred versions (oracle only); fuzzy matching: the predicate on its own, then enumerated end to end
+    _run_auto(ctx)
+    _run_match(ctx)
     fcases = fuzzy_cases(ctx.thorough)
     ctx.correspond("fuzzy", fcases, run_history, history_op, oracle_fuzzy, nontrivial=lambda c, o: bool(c["ff"] or c["ffo"]), exhaustive=True,
                    rule="aa <- bb stored by context 0; context 1 differs in every subset (<= 2) of {aa option, aa version, aa class, bb option, bb version} "
                         "x fuzzy_for in subsets of {aa, bb} x fuzzy_for_options in {[], ax, bx, ax+bx, ay}; tuple- and dict-valued options present",
-                   branch=lambda c, o: f"diff={len(c['diff'])},accepted={o.split(' ;; ')[6][3:]}")
+                   branch=lambda c, o: f"diff={len(c['diff'])},accepted={o.split(' ;; ')[7][3:]}")
+
+
+# ----------------------------------------------------------------------------- auto-inferred versions (__version__ = None)
+AUTO_SRC = '''
+import numpy as np
+import strax
+
+class AutoP(strax.Plugin):
+    """plugin with an auto-inferred version; TAG is what its code computes"""
+    __version__ = None
+    provides = ("aa",)
+    depends_on = ()
+    dtype = strax.time_fields + [(("what the code computed", "tag"), np.int64)]
+    rechunk_on_save = False
+    TAG = {tag}
+
+    def helper(self):
+        return {tag}
+
+    def is_ready(self, chunk_i):
+        return chunk_i == 0
+
+    def source_finished(self):
+        return True
+
+    def compute(self, chunk_i):
+        r = np.zeros(1, dtype=self.dtype)
+        r["endtime"] = 1
+        r["tag"] = self.helper()
+        return self.chunk(start=0, end=1, data=r)
+'''
+_AUTO = {}
+
+
+def auto_class(module_name, tag):
+    """the class AutoP from a real source file <module_name>_<tag>.py (inspect.getsource needs a file)"""
+    import importlib
+    key = (module_name, tag)
+    if key not in _AUTO:
+        d = os.path.join(_ROOT, "auto_modules")
+        os.makedirs(d, exist_ok=True)
+        name = f"{module_name}_{tag}"
+        with open(os.path.join(d, name + ".py"), "w") as f:
+            f.write(AUTO_SRC.format(tag=tag))
+        if d not in sys.path:
+            sys.path.insert(0, d)
+        _AUTO[key] = importlib.import_module(name).AutoP
+    return _AUTO[key]
+
+
+def impl_auto(case):
+    """register A; make; register B (same name, other code); get — B's rows must come back"""
+    def f():
+        A, B = auto_class(case["module"], case["tags"][0]), auto_class(case["module"], case["tags"][1])
+        path = _tmpdir()
+        st = strax.Context(storage=[strax.DataDirectory(path)], register=[A])
+        with contextlib.redirect_stdout(io.StringIO()):
+            first = int(st.get_array(RUN, "aa", progress_bar=False)["tag"][0])
+            k1 = st.key_for(RUN, "aa").lineage_hash
+            st.register(B)
+            second = int(st.get_array(RUN, "aa", progress_bar=False)["tag"][0])
+            k2 = st.key_for(RUN, "aa").lineage_hash
+        shutil.rmtree(path, ignore_errors=True)
+        return f"{first} {second} {int(k1 == k2)} {int(A.version() == B.version())}"
+    return sl.guarded(f)
+
+
+def oracle_auto(case, out):
+    if not out.startswith("ok"):
+        return f"unexpected error {out}"
+    first, second, samekey, samever = map(int, out.split()[1:])
+    a, b = case["tags"]
+    if first != a:
+        return "harness problem: first class did not compute its own tag"
+    if second != b:
+        return (f"a same-named class with __version__ = None and other code (module {case['module']}_*) was registered after data was "
+                f"made: get_array returned rows computed by the OLD code (tag {second}, fresh context computes {b}); "
+                f"same key: {bool(samekey)}, same auto version: {bool(samever)}")
+    if a != b and (samekey or samever):
+        return "code changed but the auto-inferred version / key did not"
+    return None
+
+
+def _own_attrs(cls):
+    """attribute -> digest of its source (or repr), for the attributes the class itself defines"""
+    import inspect
+    out = []
+    for a, obj in sorted(vars(cls).items()):
+        if a.startswith("__") or a in cls.takes_config:
+            continue
+        try:
+            txt = inspect.getsource(obj)
+        except (TypeError, OSError):
+            txt = repr(obj)
+        out.append((a, hashlib.sha1(txt.encode()).hexdigest()[:12]))
+    return out
+
+
+def impl_autover(case):
+    def f():
+        A, B = auto_class(case["modules"][0], case["tags"][0]), auto_class(case["modules"][1], case["tags"][1])
+        return str(A.version() == B.version())
+    return sl.guarded(f)
+
+
+def op_autover(case):
+    A, B = auto_class(case["modules"][0], case["tags"][0]), auto_class(case["modules"][1], case["tags"][1])
+    toks = ["c02.autover"]
+    for cls in (A, B):
+        attrs = _own_attrs(cls)
+        toks += [str(len(attrs))] + [tok_s(a) + " " + tok_s(d) for a, d in attrs]
+    return " ".join(toks)
+
+
+def oracle_autover(case, out):
+    same_code = case["tags"][0] == case["tags"][1]
+    if out != "ok " + str(same_code):
+        return (f"auto-inferred versions of AutoP from {case['modules'][0]}_{case['tags'][0]} and {case['modules'][1]}_{case['tags'][1]} "
+                f"are {'equal' if out == 'ok True' else 'different'} although the code is {'the same' if same_code else 'different'}")
+    return None
+
+
+def _run_auto(ctx):
+    mods = ("strax_c02auto", "straxen_like", "c02auto", "mypkg_strax")
+    vcases = [dict(modules=[m1, m2], tags=[t1, t2]) for m1 in mods for m2 in mods for (t1, t2) in ((1, 2), (2, 3), (1, 1))
+              if (m1, t1) != (m2, t2)]
+    ctx.correspond("autoversion/version", vcases, impl_autover, op_autover, oracle_autover, exhaustive=True, nontrivial=lambda c, o: True,
+                   rule="Plugin._auto_version of two generated classes (same / different code, modules named strax… / straxen… / other): "
+                        "equal iff the sources of all attributes are equal (model: autoVersion over attribute -> source digest)",
+                   branch=lambda c, o: o)
+    cases = [dict(module=m, tags=[1, t]) for m in ("strax_c02auto", "straxen_like", "c02auto", "mypkg_strax") for t in (2, 3)]
+    ctx.check_oracle("autoversion", cases, impl_auto, oracle_auto, exhaustive=True, nontrivial=lambda c, o: True,
+                     rule="plugin classes with __version__ = None defined in real modules (names starting with strax…, straxen…, and others): "
+                          "register A; get; register same-named B with other code; get must return B's rows under another key "
+                          "(oracle only: the model takes the version string as given)", branch=lambda c, o: c["module"])
+
+
+MATCH_CORPUS = [
+    # D34: Python `==` of hashablized lineages accepted 1 for True (and 0.0 for 0, …) although the keys differ
+    dict(stored=[["aa", "A", "1", [["ax", 1]]]], want=[["aa", "A", "1", [["ax", ["b", 1]]]]], ff=[], ffo=["ay"]),
+    dict(stored=[["aa", "A", "1", [["ax", 0], ["ay", 5]]]], want=[["aa", "A", "1", [["ax", ["fl", "0.0"]], ["ay", 6]]]], ff=[], ffo=["ay"]),
+    dict(stored=[["aa", "A", "1", [["ax", ["b", 0]]]]], want=[["aa", "A", "1", [["ax", 0]]]], ff=["bb"], ffo=[]),
+    dict(stored=[["aa", "A", "1", [["ax", ["t", [1, 2]]]]]], want=[["aa", "A", "1", [["ax", ["l", [1, 2]]]]]], ff=[], ffo=["ay"]),
+]
+
+
+def _run_match(ctx):
+    ctx.correspond("fuzzy/matches", MATCH_CORPUS, impl_match, op_match, oracle_match, rule="corpus of past failures (1 == True)")
+    mcases = match_cases(ctx.rng, ctx.pick(300, 4000))
+    ctx.correspond("fuzzy/matches", mcases, impl_match, op_match, oracle_match, nontrivial=lambda c, o: c["stored"] != c["want"],
+                   rule="StorageFrontend._matches on a JSON-round-tripped stored lineage (2-3 types, tuple / list / dict / bool / None / float "
+                        "option values) vs a wanted lineage with 0-3 edits (option value, version, class, dropped / added option or type, "
+                        "reordering) under random fuzzy_for / fuzzy_for_options", branch=lambda c, o: o)
 
 
 def search(ctx):
@@ -915,6 +1296,14 @@ def replay(ctx, body):
         res = hash_subprocesses([case], [0, 1, 2], [1, 2, 3])
         hs = [tuple(r[0]) for r in res]
         return None if len(set(hs)) == 1 else f"hash differs between processes: {hs}"
+    if "matches" in comp:
+        out = impl_match(case)
+        print("implementation output:", out)
+        return oracle_match(case, out)
+    if "autoversion" in comp:
+        out = impl_auto(case)
+        print("implementation output:", out)
+        return oracle_auto(case, out)
     out = run_history(case)
     print("implementation output:", out)
     if "keychange" in comp:
